@@ -9,6 +9,12 @@ from lib.common import hx
 from props import _ecdsa_common as E
 from props._ecdsa_common import ParCorr, bitlen
 
+# modules re-checked by `lake env leanchecker` in the thorough tier
+LEANCHECK = ["Props.C01", "Proofs.EcdsaNt", "Proofs.EcdsaGroup", "Proofs.EcdsaSign", "Proofs.EcdsaVerify",
+             "Proofs.EcdsaRoundTrip", "Proofs.EcdsaEntry", "Proofs.EcdsaCodec", "Proofs.EcdsaKeys", "Proofs.EcdsaTruncate",
+             "Proofs.EcdsaBits", "Proofs.EcdsaToy", "Proofs.EcdsaInstOrd", "Proofs.EcdsaInstCurve", "Proofs.EcdsaInstToy",
+             "Proofs.EcdsaInstCard", "Proofs.EcdsaInstNamed", "Proofs.EcdsaInstLegacy"]
+
 RULE = ("cases (shared by both stages): 6 encoders (string, strings, der and their _canonize variants) with the matching decoder "
         "x 5 entry points (sign, sign_digest, sign_deterministic, sign_digest_deterministic, sign_number + manual encoding) x "
         "d, k in {1, 2, n-2, n-1, n//2, n//2+1, leading-zero-byte values, random} x nonce source {explicit k, entropy function, "
@@ -330,6 +336,7 @@ def correspond(ctx):
                 c[kind].add(line, th, tag, cost)
     for k in c:
         c[k].run()
+        c[k].mirror_ref().run()
 
 
 def search(ctx):
